@@ -13,7 +13,7 @@ AGENT = "pkg/agent"
 ROUTING = "pkg/routing"
 STORAGE = "pkg/storage"
 
-HOOK_COMMITS = []
+HOOK_COMMITS = ["verif hooks: named hook points for the verification harness (no-ops without the verif build tag)"]
 NOT_YET = {}
 
 PROPS = {
@@ -164,6 +164,18 @@ PROPS = {
             {"name": "c04.fuzz-announcements", "pkg": DISCOVERY, "kind": "fuzz", "fuzz": "FuzzVerifC04Announcements", "seconds": 60, "tiers": ["thorough"]},
             {"name": "c04.fuzz-wam", "pkg": AGENT, "kind": "fuzz", "fuzz": "FuzzVerifC04Wam", "seconds": 60, "tiers": ["thorough"]},
             {"name": "c04.fuzz-bbc", "pkg": BBC, "kind": "fuzz", "fuzz": "FuzzVerifC04Fragments", "seconds": 90, "tiers": ["thorough"]},
+        ],
+    },
+    "C08": {
+        "level": "exploration",
+        "technique": "stateful rapid property test against an in-memory reference map + crash-point fault enumeration (process killed at instrumented points, store reopened) + forced interleaving of concurrent fragment pushes",
+        "level_text": "Operation histories are executed on a real store and compared with a reference map after every step, including close+reopen; for seeded histories every (hook point, occurrence) pair inside Push/Delete is enumerated by killing a child process there and reopening the directory; concurrent pushes of different fragments are forced into the lookup-lookup-write-write order by a schedule hook.",
+        "level_note": "process kill only (no power loss: unsynced data is still in the page cache); tmpfs scratch directory; whole-bundle push onto a record that holds fragments is not generated (the statement does not define it)",
+        "assumptions": ["non-zero creation times (clock-less bundles are C05's)"],
+        "units": [
+            {"name": "c08.histories", "pkg": STORAGE, "test": "TestVerifC08Histories", "shards_t": 16, "shards_q": 4},
+            {"name": "c08.crash-points", "pkg": STORAGE, "test": "TestVerifC08CrashPoints", "shards_t": 16, "shards_q": 4},
+            {"name": "c08.concurrent", "pkg": STORAGE, "test": "TestVerifC08Concurrent", "shards_t": 8},
         ],
     },
 }
